@@ -38,6 +38,9 @@ def shape_error(nd: tg.Node, x: t.Any, path: str = '$', depth: int = 0) -> t.Opt
             return None
         if n in EXACT:
             return None if type(x) is EXACT[n] else f"{path}: {type(x).__name__} where exactly {EXACT[n].__name__} is the image of {n}"
+        if n == 'Workday':
+            from .usertypes import Workday
+            return None if isinstance(x, Workday) else f"{path}: {type(x).__name__} is not a Workday"
         if n in tg.PATH_TYPES:
             want = pathlib.PurePath if n == 'PathLike' else tg.PATH_TYPES[n]
             return None if isinstance(x, want) else f"{path}: {type(x).__name__} is not a {want.__name__}"
